@@ -10,6 +10,9 @@
    ucyc <graph>                         BoxCycle.union_cycle_b -> 1 | 0
    layout <split:0|1> <extra paths a,b;c|-> <items modpath|prefix|name|emitted; ...>   Pipeline.layout_pred
    uniq <existing a,b|-> <simple>       Pipeline.generate_unique_name
+   layoutd <split:0|1> <extra|-> <dedup names a,b|-> <items modpath|prefix|name|emitted|key; ...>   Dedup.layout_pred_dedup
+   collect <roots a,b|-> <consts a,b|-> <id:succ,succ;id:;...>   Collect.collect_items (fuel = number of ids + 1) -> insertion history a,b,c
+   helpers <Service> <name:camel:tag|-:throws 0|1> ...   Effective: per function  helper names '|' exception path  (camel given as a table)
    derive <po|heo> <order a,b|-> <id>=M:<ty>,<ty>;<id>=E:<ty>,<ty>/<ty>;<id>=N:<ty>;<id>=S|C|O
           ty = TyKind names in prefix form joined by '.', a path is P<id>:  Map.I32.Vec.P7
           Derive.decisions + the model's verdict  -> <id>=Y|N|D ... | closed=0|1 wsc=0|1 cons=0|1   or PANIC / FUEL *)
@@ -179,6 +182,42 @@ let run (line : string) : string =
     String.concat ";" (List.map (fun (p, names) -> path_to p ^ "=" ^ String.concat "," (List.map os names))
                          (Model.layout_pred (split = "1") extra items))
   | ["uniq"; ex; s] -> os (Model.generate_unique_name (path_of ex) (cs s))
+  | ["layoutd"; split; extra; dd; items] ->
+    let extra = if extra = "-" then [] else List.map path_of (split_on ';' extra) in
+    let dd = if dd = "-" then [] else List.map cs (split_on ',' dd) in
+    let items = List.map (fun t ->
+        match String.split_on_char '|' t with
+        | [mp; pre; nm; em; key] -> ((path_of mp, (cs pre, (cs nm, cs em))), cs key)
+        | _ -> failwith ("bad item " ^ t)) (if items = "-" then [] else split_on ';' items) in
+    String.concat ";" (List.map (fun (p, names) -> path_to p ^ "=" ^ String.concat "," (List.map os names))
+                         (Model.layout_pred_dedup (split = "1") extra dd items))
+  | ["collect"; roots; consts; g] ->
+    let ids s = if s = "-" then [] else List.map (fun x -> nat_of_int (int_of_string x)) (split_on ',' s) in
+    let table = List.map (fun t ->
+        match String.split_on_char ':' t with
+        | [d; sc] -> (int_of_string d, ids (if sc = "" then "-" else sc))
+        | _ -> failwith ("bad node " ^ t)) (split_on ';' g) in
+    let succs d = match List.assoc_opt (int_of_nat d) table with Some l -> l | None -> [] in
+    String.concat "," (List.map (fun d -> string_of_int (int_of_nat d))
+                         (Model.collect_items succs (nat_of_int (List.length table + 1)) (ids roots) (ids consts)))
+  | "helpers" :: service :: fns ->
+    let parsed = List.map (fun t ->
+        match String.split_on_char ':' t with
+        | [n; c; tag; th] -> (n, c, tag, th)
+        | _ -> failwith ("bad function " ^ t)) fns in
+    (* camel as a table over the names the model can ask for: raw names and tags *)
+    let table = List.concat_map (fun (n, c, tag, _) ->
+        match String.split_on_char '/' c with
+        | [cn; ct] -> [(n, cn); (tag, ct)]
+        | [cn] -> [(n, cn)]
+        | _ -> failwith ("bad camel " ^ c)) parsed in
+    let camel s = match List.assoc_opt (os s) table with Some c -> cs c | None -> s in
+    let fs = List.map (fun (n, _, tag, th) ->
+        { Model.f_name = cs n; Model.f_tag = (if tag = "-" then None else Some (cs tag)); Model.f_throws = (th = "1") }) parsed in
+    let dups = Model.duplicates camel fs in
+    String.concat " " (List.map (fun f ->
+        String.concat "," (List.map os (Model.helper_items camel (cs service) dups f)) ^ "|" ^
+        (match Model.exception_path camel (cs service) dups f with Some p -> os p | None -> "-")) fs)
   | ["derive"; tr; order; g] ->
     let tr = (match tr with "po" -> Model.PO | "heo" -> Model.HEO | _ -> failwith ("bad bundle " ^ tr)) in
     let order = if order = "-" then [] else List.map (fun x -> nat_of_int (int_of_string x)) (split_on ',' order) in
